@@ -90,6 +90,18 @@ extern "C" void h_main() {
         check(rho.isRetained(BlockNumber(b)) == any, "block retained iff some weight exceeds eps");
         if (!any) reach("block_discarded");
     }
+    // a second truncation of the SAME density matrix with an independent tolerance (smaller, equal or larger): the rule applies to the
+    // tolerance of the last call, whatever was discarded before (C19: "with eps = 0 nothing changes")
+    double eps2 = sym_real("eps2");
+    assume(eps2 >= 0);
+    rho.truncateBlocks(eps2, false);
+    k = 0;
+    for (int b = 0; b < m.NB; ++b) {
+        bool any = false;
+        for (int i = 0; i < m.bsize(b); ++i, ++k) if (w[k] > eps2) any = true;
+        check(rho.isRetained(BlockNumber(b)) == any, "after a second truncation: block retained iff some weight exceeds the new eps");
+        if (any && eps2 < eps) reach("block_retained_again");
+    }
 #endif
     reach("done");
 }
